@@ -316,10 +316,11 @@ def run_and_judge(prop: str, tier: str, seed: int, items: List[KItem], info: dic
         return default_checks_are_mine
 
     cov = {'harnesses': len(items), 'held': 0, 'failed': 0, 'inconclusive': 0, 'solver_s': 0.0, 'properties_checked': 0,
-           'reduced_bound': [], 'optional_inconclusive': [], 'not_mine_failures': 0, 'samples': [], 'programs': len({it.mod for it in items}),
+           'reduced_bound': [], 'optional_inconclusive': [], 'undecided': [], 'not_mine_failures': 0, 'samples': [], 'programs': len({it.mod for it in items}),
            'descriptions': sorted({it.unit.desc_id for it in items}), 'by_class': {}, 'bounds': {}}
     failures: Dict[str, List[KItem]] = {}
     nontrivial = set()
+    out.total += len(items)
     for it in items:
         r = it.result
         cov['by_class'][it.cls] = cov['by_class'].get(it.cls, 0) + 1
@@ -353,6 +354,9 @@ def run_and_judge(prop: str, tier: str, seed: int, items: List[KItem], info: dic
         elif it.cls == 'heavy':
             # optional extras: reported, never counted as a pass, do not make the run inconclusive
             cov['optional_inconclusive'].append(f'{it.key}: {r.status} at input bound {it.L}')
+        elif r.status == 'timeout':
+            cov['undecided'].append(f'{it.key}: timeout at input bound {it.L}' + (' (already reduced)' if it.reduced else ''))
+            out.undecided_item(f'{it.key}: timeout at input bound {it.L}' + (' (already reduced)' if it.reduced else ''))
         else:
             cov['inconclusive'] += 1
             out.inconclusive_item(f'{it.key}: {r.status} at input bound {it.L}' + (' (already reduced)' if it.reduced else ''))
